@@ -55,6 +55,7 @@ for f in sorted(glob.glob('/verif/out/killed/*.json')):
     ms.sort(key=lambda m: (m['op']=='delete statement', m['line']))
     for m in ms[:3]:
         m['prop']=prop; corpus.append(m)
+corpus+=json.load(open('/verif/selftest/extra.json'))  # hand-written entries for clauses added after seed rounds
 json.dump(corpus,open('/verif/selftest/corpus.json','w'),indent=1)
 print(len(corpus),'entries')
 PY
